@@ -56,7 +56,7 @@ class Ctx:
         # on absolute file names) and for the tokens the checks use as exclude-paths values
         while True:
             self.scratch = tempfile.mkdtemp(prefix="vf%s" % pid.lower(), dir=base)
-            if not any(t in self.scratch for t in ("testdata", "_test", "zzgen", "nomatch", "gen", "vendor")):
+            if not any(t in self.scratch for t in ("testdata", "_test", "zzge", "nomatch", "gen", "vendor")):
                 break
             shutil.rmtree(self.scratch, ignore_errors=True)
         self.specdir = os.path.join(self.scratch, "spec")
